@@ -1,4 +1,4 @@
 SPECIFICATION Spec
-CONSTANTS Variant = "doc" MaxLives = 3 Rich = TRUE
+CONSTANTS Variant = "doc" MaxLives = 2 Rich = TRUE
 INVARIANTS InvBounds InvDenominator InvSchedule InvResume InvAscentDirection InvFixedPoint InvObject
 CHECK_DEADLOCK FALSE
